@@ -361,6 +361,11 @@ def load_patches(
     if patch_centers is not None:
         if isinstance(patch_centers, Catalog):
             patch_centers = patch_centers.get_centers()
+        if list(patch_ids) != list(range(len(patch_centers))):
+            # a center without data would silently shift all following centers
+            if parallel.on_root():
+                (cache_directory / PATCH_INFO_FILE).unlink()
+            raise ValueError("patch centers and patch IDs with data do not match")
         patch_arg_iter = zip(patch_paths, patch_centers)
 
     else:
